@@ -24,6 +24,7 @@ records of the remote peer (all answer `q`):
   ndel r= id= e= m= d= k= sig=
   edel r= src= se= l= dst= c= d= k= sig=
   sync r=<n>                            -> sync res=… nrej=… erej=… N=… E=… ND=… ED=…
+  rsync r=<n>  (real synchronise_day)   -> rsync res=ok|err N=… E=… ND=… ED=…
 anything else -> bad-op
 -/
 open Discret Discret.Proto Discret.Ingest
@@ -370,6 +371,16 @@ def stepLine (st : St) (line : String) : St × String :=
         { entry := { room := r, src, srcEnt := se, dst, label := l, cdate := c, ddate := d, key := k }, sigOk := sig }
       ({ st with batch := { st.batch with edgeDels := st.batch.edgeDels ++ [x] } }, "q")
     | _, _, _, _, _, _, _, _, _ => (st, "bad-op")
+  | "rsync" :: rest =>
+    -- the same day through the real `synchronise_day`: the caller only learns Ok / Err
+    match nat? rest "r" with
+    | some r =>
+      if tieOnSysRow st then (st, "bad-op")
+      else
+        let res := syncDay Defects.asImplemented st.inst r st.batch
+        let cls := match res.2 with | .done _ _ => "ok" | _ => "err"
+        ({ st with inst := res.1, batch := St.init.batch }, s!"rsync res={cls} {dump res.1}")
+    | none => (st, "bad-op")
   | "sync" :: rest =>
     match nat? rest "r" with
     | some r =>
